@@ -7,7 +7,9 @@ RULE = ('Rule-based state machine (Hypothesis stateful) over a real SimulatedBro
         'account subscribe/withdraw, portfolio creation (<=4), portfolio subscribe/withdraw (fractions of the live '
         'balance and amounts {0,0.01,0.5,1,1.5,..}), orders (any/close/flip, +-1..500 shares, 1-5 assets), quote '
         'moves (bid != ask, prices down to 0.01), clock updates over boundary-heavy instants; zero/default/percentage '
-        'fee models (rates 0 or >= 1e-3). Oracle after every step: exact-rational ledger of master and per-portfolio '
+        'fee models (rates 0 or >= 1e-3), accounts denominated in USD, GBP or EUR, order batches through the real '
+        'ExecutionHandler. Oracle after every step (fills belong to the portfolio their order was submitted to; '
+        'balances in other currencies stay zero): exact-rational ledger of master and per-portfolio '
         'cash built from the tapped Transactions (price*qty + commission) and the transfers; both account-level '
         'aggregates return and equal the per-portfolio getters and their sum; history has exactly one event per '
         'cash movement, in order, right type, amount and running balance within half a cent of the true value and a '
